@@ -134,15 +134,15 @@ def collision_programs(ctx):
         hq = [h for h in handlers(q, kind=kind, part=pa)][0]
         if other:
             o = rng.choice(other)
-            taken = {h["name"] for h in handlers(q, part=o["part"])} | {h["name"] for h in handlers(q, kind=o["kind"])}
-            if hq["name"] not in taken:
+            taken = {T.wire_name(h["name"]) for h in handlers(q, part=o["part"])} | {T.wire_name(h["name"]) for h in handlers(q, kind=o["kind"])}
+            if T.wire_name(hq["name"]) not in taken:
                 o["name"] = hq["name"]
                 mods[f"xk{i:03d}"] = render.R(q).source(with_glue=False)
                 meta[f"xk{i:03d}"] = {"expect": "accept", "kind": kind, "note": f"{hq['name']} shared across kinds {kind}/{o['kind']}"}
         c = copy.deepcopy(p)
         c["types"] = p["types"]
         hb2 = [h for h in handlers(c, kind=kind, part=pb) if h["name"] == hb["name"]][0]
-        if any(h["name"] == ha["name"] for h in handlers(c, part=pb)):
+        if any(T.wire_name(h["name"]) == T.wire_name(ha["name"]) for h in handlers(c, part=pb)):
             continue
         hb2["name"] = ha["name"]
         mods[f"cl{i:03d}"] = render.R(c).source(with_glue=False)
